@@ -6,7 +6,7 @@
    quantity squared, so that it stays in Q:
      proj < 0        <->  (xy-a).(b-a) < 0           (proj = (xy-a).(b-a) / |ab|, |ab| > 0)
      proj > abLen    <->  (xy-a).(b-a) > |ab|^2
-     proj / abLen     =   (xy-a).(b-a) / |ab|^2
+     (|ab x ap| / abLen)^2 = (ab x ap)^2 / |ab|^2
    The value returned by Go is compared with the square root of the model's value.
 
    What is abstracted: the R-tree (rtree.BulkLoad, PrioritySearch) and the early termination
@@ -27,18 +27,33 @@ Definition vdot (u v : pt) : Q := fst u * fst v + snd u * snd v.       (* XY.Dot
 (* distBetweenXYs, squared: xy1.Sub(xy2).lengthSq() *)
 Definition d2_xy (p q : pt) : Q := let w := vsub p q in vdot w w.
 
-(* distBetweenXYAndLine: the point of the line that the code measures to *)
-Definition closest_on_line (xy : pt) (ln : seg) : pt :=
+(* XY.Cross *)
+Definition vcross (u v : pt) : Q := fst u * snd v - snd u * fst v.
+
+(* distBetweenXYAndLine, squared (after fix F91: the perpendicular distance |ab x ap| / |ab| when
+   the foot of the perpendicular is inside the segment; before the fix the code constructed the
+   foot a + ab * (proj/abLen) and measured to it - the same real number, see d2_xy_line_closest) *)
+Definition d2_xy_line (xy : pt) (ln : seg) : Q :=
   let '(a, b) := ln in
   let ab := vsub b a in
   let l2 := vdot ab ab in                       (* abLen^2 *)
-  let pr := vdot (vsub xy a) ab in              (* proj * abLen *)
-  if qltb pr 0 then a                           (* proj < 0 *)
-  else if qltb l2 pr then b                     (* proj > abLen *)
+  let ap := vsub xy a in
+  let pr := vdot ap ab in                       (* proj * abLen *)
+  if qltb pr 0 then d2_xy xy a                  (* proj < 0 *)
+  else if qltb l2 pr then d2_xy xy b            (* proj > abLen *)
+  else let c := vcross ab ap in c * c / l2.     (* (|ab x ap| / abLen)^2 *)
+
+(* the point of the segment that realises the distance (specification only) *)
+Definition closest_on_line (xy : pt) (ln : seg) : pt :=
+  let '(a, b) := ln in
+  let ab := vsub b a in
+  let l2 := vdot ab ab in
+  let pr := vdot (vsub xy a) ab in
+  if qltb pr 0 then a
+  else if qltb l2 pr then b
   else
-    let t := pr / l2 in                         (* proj / abLen *)
-    (fst ab * t + fst a, snd ab * t + snd a).   (* ab.Scale(t).Add(ln.a) *)
-Definition d2_xy_line (xy : pt) (ln : seg) : Q := d2_xy xy (closest_on_line xy ln).
+    let t := pr / l2 in
+    (fst ab * t + fst a, snd ab * t + snd a).
 
 (* fastMin *)
 Definition qmin (a b : Q) : Q := if qltb a b then a else b.
@@ -139,7 +154,7 @@ Definition sqrt_close (d m rel abs : Q) : bool :=
   let tol := rel * d + abs in
   let lo := d - tol in
   let hi := d + tol in
-  (Qle_bool lo 0 || Qle_bool (lo * lo) m) && Qle_bool m (hi * hi).
+  Qle_bool 0 d && (Qle_bool lo 0 || Qle_bool (lo * lo) m) && Qle_bool m (hi * hi).
 
 (* largest |ordinate| among the control points of g (0 if none) *)
 Definition qabs_max (m : Q) (p : pt) : Q := qmax2 (qmax2 m (Qabs (fst p))) (Qabs (snd p)).
@@ -152,11 +167,35 @@ Definition q_of_dyadic (neg : bool) (m : Z) (e : Z) : Q :=
   if neg then - v else v.
 
 (* ---------------------------------------------------------------- reference value *)
-(* exact squared distance of two closed segments: 0 if they meet (QKernel.seg_seg), else the
-   minimum over the four end-point-to-segment distances *)
+(* exact squared distance of two closed non-degenerate segments by an algorithm that is independent
+   of the one in the Go code: 0 if they meet (QKernel.seg_seg), else the constrained minimum of the
+   quadratic |a + s(b-a) - c - t(d-c)|^2 over the unit square by clamping (C. Ericson, Real-Time
+   Collision Detection, 5.1.9) *)
+Definition clamp01 (x : Q) : Q := if qltb x 0 then 0 else if qltb 1 x then 1 else x.
+Definition d2_seg_seg_clamp (s t : seg) : Q :=
+  let '(a, b) := s in
+  let '(c, d) := t in
+  let d1 := vsub b a in
+  let d2 := vsub d c in
+  let r := vsub a c in
+  let A := vdot d1 d1 in
+  let E := vdot d2 d2 in
+  let F := vdot d2 r in
+  let C := vdot d1 r in
+  let B := vdot d1 d2 in
+  let denom := A * E - B * B in
+  let s0 := if Qeq_bool denom 0 then 0 else clamp01 ((B * F - C * E) / denom) in
+  let t0 := (B * s0 + F) / E in
+  let '(s1, t1) :=
+    if qltb t0 0 then (clamp01 (- C / A), 0)
+    else if qltb 1 t0 then (clamp01 ((B - C) / A), 1)
+    else (s0, t0) in
+  let p := (fst a + fst d1 * s1, snd a + snd d1 * s1) in
+  let q := (fst c + fst d2 * t1, snd c + snd d2 * t1) in
+  Qred (d2_xy p q).
 Definition d2_seg_seg_ref (s t : seg) : Q :=
   match seg_seg s t with
-  | SSEmpty => d2_line_line s t
+  | SSEmpty => d2_seg_seg_clamp s t
   | _ => 0
   end.
 Definition min_list (l : list Q) : option Q := fold_left omin l None.
@@ -208,3 +247,28 @@ Definition geom_vertices (g : geom) : list pt := arr_points g ++ flat_map seg_en
 Definition share_simple (a b : geom) : bool :=
   existsb (fun s => existsb (seg_meet s) (arr_segments b)) (arr_segments a) ||
   existsb (inG b) (geom_vertices a) || existsb (inG a) (geom_vertices b).
+
+(* ---------------------------------------------------------------- class predicate of known finding F20 *)
+(* "some hole ring of an areal member of an operand meets the interior of another areal member of
+   the SAME operand" (DESIGN section 0, F20), decided on the witnesses of the arrangement of the
+   two members.  Only used to label disagreements between Intersects and the overlay-based
+   operations (Relate, Intersection) on such operands. *)
+Definition hole_meets_interior (y y' : polyT Q) : bool :=
+  existsb (fun w => rings_boundary (tl (poly_ring_segs y)) (fst w) && poly_interior y' (fst w))
+          (pair_witnesses (GPoly y) (GPoly y')).
+Fixpoint f20_pairs (ys : list (polyT Q)) : bool :=
+  match ys with
+  | [] => false
+  | y :: r => existsb (fun y' => hole_meets_interior y y' || hole_meets_interior y' y) r || f20_pairs r
+  end.
+Definition f20_class (g : geom) : bool := f20_pairs (g_polys g).
+
+(* ---------------------------------------------------------------- clearance (general-position inputs) *)
+(* the quantifier's admission test for float64 inputs: every vertex keeps a squared distance of at
+   least tol2 from every non-incident segment and from every different vertex of the two operands *)
+Definition clearance_ok (tol2 : Q) (a b : geom) : bool :=
+  let V := geom_vertices a ++ geom_vertices b in
+  let L := filter (fun s => negb (pt_eqb (fst s) (snd s))) (arr_segments a ++ arr_segments b) in
+  forallb (fun v =>
+    forallb (fun s => pt_eqb v (fst s) || pt_eqb v (snd s) || Qle_bool tol2 (d2_xy_line v s)) L &&
+    forallb (fun w => pt_eqb v w || Qle_bool tol2 (d2_xy v w)) V) V.
